@@ -47,8 +47,8 @@ def term_z3(p):
     return z3.Sum(terms)
 
 
-def side_constraints(atom_ids):
-    """Defining constraints for derived atoms reachable from atom_ids."""
+def side_constraints(atom_ids, free=()):
+    """Defining constraints for derived atoms reachable from atom_ids (atoms in `free` only keep their sign)."""
     out = []
     seen = set()
     todo = list(atom_ids)
@@ -58,6 +58,10 @@ def side_constraints(atom_ids):
             continue
         seen.add(i)
         k = W.kind[i]
+        if (free == 'sqrt' and k == 'sqrt') or (free != 'sqrt' and i in free):
+            if k == 'sqrt':
+                out.append(zvar(i) >= 0)
+            continue
         if k == 'sqrt':
             R = W.defn[i]
             out.append(zvar(i) * zvar(i) == term_z3(R))
@@ -92,13 +96,15 @@ def side_constraints(atom_ids):
 
 class SymBool:
     """A z3 formula plus the atoms it mentions.  Truth value is decided by the explorer."""
-    __slots__ = ('z', 'atoms', 'tag')
+    __slots__ = ('z', 'atoms', 'tag', 'poly', 'op')
     __hash__ = None
 
-    def __init__(self, z, atoms=(), tag=None):
+    def __init__(self, z, atoms=(), tag=None, poly=None, op=None):
         self.z = z
         self.atoms = frozenset(atoms)
         self.tag = tag
+        self.poly = poly      # cleared polynomial p with  z == (p op 0)  (for the interval pre-check)
+        self.op = op
 
     def __bool__(self):
         ex = current()
@@ -190,8 +196,18 @@ def formula(d, op):
     p, bases = clear(d, even=True)
     if p.is_const():
         return _PYOPS[op](p.cval())
-    z = _OPS[op](term_z3(p))
-    atoms = set(p.all_atoms())
+    ex0 = current()
+    zt = None
+    if ex0 is not None and ex0.abstract_basis:
+        zt = ex0.abstract_term(p)
+    if zt is not None:
+        z_term, atoms = zt
+        z = _OPS[op](z_term)
+        p_for_interval = None
+    else:
+        z = _OPS[op](term_z3(p))
+        atoms = set(p.all_atoms())
+        p_for_interval = p
     extra = []
     for B in bases:
         Bc = _reduce(B, reduce_sqrt=True)
@@ -199,7 +215,7 @@ def formula(d, op):
             continue
         extra.append(term_z3(Bc) != 0)
         atoms |= Bc.all_atoms()
-    sb = SymBool(z, atoms)
+    sb = SymBool(z, atoms, poly=p_for_interval, op=op)
     # base non-zero facts are domain assumptions of the expression; attach as global assumptions
     ex = current()
     if extra and ex is not None:
@@ -283,6 +299,13 @@ class Explorer:
         self.path = None
         self._fresh = 0
         self.verdicts = {'sat': 0, 'unsat': 0, 'unknown': 0}
+        self.abstract_basis = []  # [(Sym P_k, z3 Real T_k)]: sub-polynomials replaced by fresh non-negative reals
+        self.abstract_atoms = set()   # atoms occurring in the basis (a comparison mentioning them must decompose)
+        self.free_atoms = set()   # derived atoms whose defining constraint is dropped (over-approximation)
+        self.n_abstracted = 0
+        self.n_abstract_failed = 0
+        self.box = {}            # var name -> (lo, hi): declared ranges (must also be assumed); enables the interval pre-check
+        self.n_interval = 0
 
     # ------------------------------------------------------------------ assumptions
     def assume(self, p):
@@ -294,6 +317,142 @@ class Explorer:
                 self.pre.append(z3.BoolVal(False))
         else:
             self.pre.append(p)
+
+    def assume_box(self, v, lo, hi):
+        """Assume lo <= v <= hi for an input variable and remember the range for interval pruning."""
+        (m, _), = v.t.items()
+        i = m[0][0]
+        self.box[i] = (Fraction(lo), Fraction(hi))
+        self.pre.append(zvar(i) >= z3.RealVal(str(Fraction(lo))))
+        self.pre.append(zvar(i) <= z3.RealVal(str(Fraction(hi))))
+
+    def _atom_interval(self, i, memo):
+        if i in memo:
+            return memo[i]
+        r = None
+        k = W.kind[i]
+        if k == 'var':
+            r = self.box.get(i)
+        elif k == 'sqrt':
+            ri = self._poly_interval(W.defn[i], memo)
+            if ri is not None:
+                import math
+                rl, rh = max(ri[0], Fraction(0)), max(ri[1], Fraction(0))
+                sc = 10 ** 12
+                lo = Fraction(math.isqrt(int(rl * sc)), 10 ** 6)
+                hi = Fraction(math.isqrt(int(rh * sc) + 1) + 1, 10 ** 6)
+                r = (lo, hi)
+        memo[i] = r
+        return r
+
+    def _poly_interval(self, p, memo):
+        lo = hi = Fraction(0)
+        for m, c in p.t.items():
+            tl = th = c
+            for i, e in m:
+                b = self._atom_interval(i, memo)
+                if b is None:
+                    return None
+                al, ah = b
+                cands = [al ** e, ah ** e]
+                pl, ph = min(cands), max(cands)
+                if e % 2 == 0 and al < 0 < ah:
+                    pl = Fraction(0)
+                prods = [tl * pl, tl * ph, th * pl, th * ph]
+                tl, th = min(prods), max(prods)
+            lo += tl
+            hi += th
+        return lo, hi
+
+    def interval_decides(self, sb):
+        """True/False if the comparison is decided by exact (outward-rounded) interval arithmetic over the
+        declared box; else None."""
+        if sb.poly is None or not self.box:
+            return None
+        iv = self._poly_interval(sb.poly, {})
+        if iv is None:
+            return None
+        lo, hi = iv
+        op = sb.op
+        if op == '<':
+            return True if hi < 0 else (False if lo >= 0 else None)
+        if op == '<=':
+            return True if hi <= 0 else (False if lo > 0 else None)
+        if op == '>':
+            return True if lo > 0 else (False if hi <= 0 else None)
+        if op == '>=':
+            return True if lo >= 0 else (False if hi < 0 else None)
+        if op == '==':
+            return False if (lo > 0 or hi < 0) else None
+        if op == '!=':
+            return True if (lo > 0 or hi < 0) else None
+        return None
+
+    def abstract(self, P, name, nonneg=True):
+        """Replace occurrences of the polynomial P in comparisons by a fresh real (>= 0 if nonneg).  This is an
+        over-approximation (the fresh real forgets how P depends on the inputs): unsat answers stay valid,
+        sat answers are only candidates (they are replayed)."""
+        T = z3.Real('abs_' + name)
+        self.abstract_basis.append((P, T))
+        self.abstract_atoms |= P.atoms()
+        if nonneg:
+            self.pre.append(T >= 0)
+        return T
+
+    def abstract_term(self, p):
+        """Write p = sum c_k P_k + rest with rest free of abstracted atoms; returns (z3 term, atoms of rest) or None."""
+        if not (p.atoms() & self.abstract_atoms):
+            return None
+        basis = self.abstract_basis
+        K = len(basis)
+        monos = set()
+        for P, _ in basis:
+            monos |= set(P.t)
+        target = {}
+        rest = {}
+        for m, c in p.t.items():
+            if m in monos or any(i in self.abstract_atoms for i, _ in m):
+                target[m] = c
+            else:
+                rest[m] = c
+        rows = []
+        for m in set(monos) | set(target):
+            rows.append([P.t.get(m, Fraction(0)) for P, _ in basis] + [target.get(m, Fraction(0))])
+        # Gaussian elimination
+        piv_cols = []
+        r = 0
+        for col in range(K):
+            pr = None
+            for i in range(r, len(rows)):
+                if rows[i][col] != 0:
+                    pr = i
+                    break
+            if pr is None:
+                continue
+            rows[r], rows[pr] = rows[pr], rows[r]
+            pv = rows[r][col]
+            rows[r] = [x / pv for x in rows[r]]
+            for i in range(len(rows)):
+                if i != r and rows[i][col] != 0:
+                    f = rows[i][col]
+                    rows[i] = [a - f * b for a, b in zip(rows[i], rows[r])]
+            piv_cols.append(col)
+            r += 1
+        for i in range(r, len(rows)):
+            if rows[i][K] != 0:
+                self.n_abstract_failed += 1
+                return None          # not in the span: leave the comparison concrete
+        coeffs = [Fraction(0)] * K
+        for i, col in enumerate(piv_cols):
+            coeffs[col] = rows[i][K]
+        restp = Sym(rest)
+        # the constant monomial () may be part of basis polys; it was put in target if so; fine.
+        zt = term_z3(restp)
+        for c, (_, T) in zip(coeffs, basis):
+            if c:
+                zt = zt + z3.RealVal(str(c)) * T
+        self.n_abstracted += 1
+        return zt, set(restp.all_atoms())
 
     def add_domain(self, conds, atoms):
         if self.path is not None:
@@ -312,7 +471,7 @@ class Explorer:
     def check(self, conds, atoms=()):
         """Satisfiability of pre ∧ conds (+ side constraints of the atoms involved)."""
         all_atoms = set(atoms) | self.pre_atoms
-        sides = side_constraints(all_atoms)
+        sides = side_constraints(all_atoms, self.free_atoms)
         s = z3.Solver()
         s.set('timeout', self.timeout)
         s.add(*self.pre)
@@ -344,6 +503,11 @@ class Explorer:
         if k >= self.max_decisions:
             self.capped = True
             raise PathAbort('decision cap')
+        iv = self.interval_decides(sb)
+        if iv is not None:
+            # decided for every input in the declared box: no fork, no path-condition entry needed
+            self.n_interval += 1
+            return iv
         if k < len(self.prefix):
             v = self.prefix[k]
         else:
@@ -435,10 +599,20 @@ class Explorer:
                 return 'unsat', None
         return self.check(conds + [z3.Not(goal.z)], atoms)
 
+    def prove_all(self, path, goals, extra_assume=()):
+        """Prove a conjunction member by member (smaller NRA queries).  Returns (verdict, model, index)."""
+        for k, g in enumerate(goals):
+            v, m = self.prove(path, g, extra_assume)
+            if v != 'unsat':
+                return v, m, k
+        return 'unsat', None, -1
+
     def stats(self):
         return {'paths': len(self.paths), 'queries': self.nq, 'queries_saved_by_model_cache': self.nq_saved,
                 'solver_s': round(self.solver_s, 3), 'unknown': self.unknown, 'capped': self.capped,
-                'verdicts': dict(self.verdicts), 'generic_nonzero_notes': self.generic_notes}
+                'verdicts': dict(self.verdicts), 'generic_nonzero_notes': self.generic_notes,
+                'decided_by_interval_precheck': self.n_interval, 'comparisons_abstracted': self.n_abstracted,
+                'abstraction_not_applicable': self.n_abstract_failed}
 
 
 class activate:
